@@ -101,17 +101,67 @@ def run(tier, seed):
         for r in recs: f.write(json.dumps(r) + '\n')
     chunks = vlib.split_lines(trace, vlib.NCPU * 2, wd, 'shift', min_lines=20)
     v = vlib.validate('TraceShift.tla', 'TraceShift.cfg', chunks, wd, timeout=3400)
+    # ---- SHIFT in rules with a calendar scale: two recorded streams per case (the rule without SHIFT from 90 days earlier, the rule as
+    # written), TraceShiftScale.tla moves the dates of the first by RRule!ShiftDay and compares
+    import datetime as D
+    sc_cases = []
+    for k in range(3000 if th else 330):
+        sc = rnd.choice(rrgen.HIJRI + ['HIJRI.IIC', 'HIJRI.IIIA', 'HIJRI.IVC'])
+        fr = rnd.choice(['YEARLY', 'MONTHLY'])
+        md = sorted(set(rnd.choice([1, 2, 3, 14, 15, 28, 29, 30, -1, -2, -3]) for _ in range(rnd.randint(1, 4))))
+        body = 'BYMONTHDAY=' + ','.join(map(str, md))
+        if fr == 'YEARLY': body = 'BYMONTH=' + ','.join(map(str, sorted(set(rnd.randint(1, 12) for _ in range(rnd.randint(1, 3)))))) + ';' + body
+        d0 = D.date(rnd.randint(1945, 2040), rnd.randint(1, 12), rnd.randint(1, 28))
+        tod = (rnd.randint(0, 23), rnd.choice([0, 15, 30, 59]), rnd.choice([0, 0, 59])) if rnd.random() < 0.5 else ()
+        kind = rnd.choice(['d', 'd', 'b', 'b+', 'z', 'db'])
+        nn = rnd.choice([1, 2, 3, 5, 10, 29, 30, 31, 40]) * rnd.choice([1, -1]) if kind == 'd' else rnd.choice([1, 2, 3, 4, 5, 6, 10, 21]) * rnd.choice([1, -1])
+        stext, sh = rrgen.shift_variant(rnd, kind, nn if kind in ('d', 'b', 'b+') else None)
+        if abs(sh[0]) + abs(sh[1]) * 7 // 5 + 4 > 56: continue           # the evaluator's span
+        ext = rnd.random(); until = []; count = 0; tail = ''
+        if ext < 0.4:
+            u = d0 + D.timedelta(rnd.randint(20, 1500 if fr == 'YEARLY' else 400))
+            until = rrgen.inst((u.year, u.month, u.day) + tod) if tod else rrgen.inst((u.year, u.month, u.day))
+            tail = ';UNTIL=%04d%02d%02d' % (u.year, u.month, u.day) + ('T%02d%02d%02dZ' % tod if tod else '')
+        elif ext < 0.7 and not sh[2]:
+            # COUNT only where no two dates can be moved onto one (as in the Gregorian cases above)
+            count = rnd.randint(1, 40); tail = ';COUNT=%d' % count
+        b0 = d0 - D.timedelta(90)
+        rt0 = 'FREQ=%s;%s;SCALE=%s' % (fr, body, sc)
+        rt = rt0 + ';SHIFT=' + stext + tail
+        ds = (d0.year, d0.month, d0.day) + tod; bs = (b0.year, b0.month, b0.day) + tod
+        common = {'ds': rrgen.inst(ds), 'rule': {'shift': sh}, 'rtext': rt, 'until': until, 'count': count, 'tag': 'scale-shift'}
+        sc_cases.append(dict(common, uid='q%d' % k, ics=rrgen.event_ics('q%d' % k, ds, [rt]), maxpop=rnd.choice([40, 70]), mode=rnd.choice('np'), role='shifted'))
+        sc_cases.append(dict(common, uid='qb%d' % k, ics=rrgen.event_ics('qb%d' % k, bs, [rt0]), maxpop=330, mode='n', role='base'))
+    nsl2 = vlib.NCPU; per2 = -(-len(sc_cases) // nsl2); per2 += per2 % 2          # pairs stay in one slice
+    with cf.ThreadPoolExecutor(max_workers=nsl2) as ex:
+        r2 = [r for part in ex.map(lambda k: strmrun.run_cases(drv, sc_cases[k * per2:(k + 1) * per2], wd, 'scs%d' % k, budget=5, maxpop=330), range(nsl2)) for r in part]
+    sc_recs = []
+    for a, b in zip(r2[0::2], r2[1::2]):
+        assert a['role'] == 'shifted' and b['role'] == 'base'
+        rec = {kk: vv for kk, vv in a.items() if kk not in ('text', 'uid', 'maxpop', 'mode', 'role', 'hz')}
+        rec['e'] = 'ScShift'; rec['base'] = b.get('occ', []); rec['basestop'] = b.get('stop', 'eos')
+        if 'crash' in b or 'timeout' in b: rec['crash'] = b.get('crash', -1)
+        rec.setdefault('occ', []); rec.setdefault('stop', 'eos'); rec.setdefault('peekmism', 0)
+        sc_recs.append(rec)
+    trace2 = f'{wd}/scshift.ndjson'
+    with open(trace2, 'w') as f:
+        for r in sc_recs: f.write(json.dumps(r) + '\n')
+    chunks2 = vlib.split_lines(trace2, vlib.NCPU, wd, 'scshift', min_lines=20)
+    v2 = vlib.validate('TraceShiftScale.tla', 'TraceShiftScale.cfg', chunks2, wd, timeout=3400)
     bad = []
     for fn, k, g in v['bad'][:3000]:
         rec = json.loads(vlib.getline(fn, k)); rec['nocc'] = len(rec.get('occ', [])); rec['occ'] = rec.get('occ', [])[:6]
         bad.append((vlib.save_replay(PID, f'line{g}.json', rec), rec))
+    for fn, k, g in v2['bad'][:1000]:
+        rec = json.loads(vlib.getline(fn, k)); rec['nocc'] = len(rec.get('occ', [])); rec['scale_shift'] = True
+        bad.append((vlib.save_replay(PID, f'scline{g}.json', rec), rec))
     unlisted, listed = vlib.classify(PID, bad, derive)
     neaster = sum(1 for r in recs if r['tag'] == 'easter-all-years')
     cov = {'states': e1['states'], 'transitions': e1['transitions'], 'traces_validated_against_impl': len(recs),
            'samples': [{'ds': recs[i]['ds'], 'rtext': recs[i]['rtext'], 'nocc': len(recs[i].get('occ', []))} for i in (0, len(offs) + 5, len(recs) - 1)],
            'evaluations': len(recs), 'distinct_nontrivial': len(set((json.dumps(r['ds']), r['rtext']) for r in recs if r.get('occ'))),
            'rule': 'one case = one rule stream followed for 70..260 pops and compared occurrence by occurrence with RRule!RSet: (a) FREQ=YEARLY;BYEASTER=N from 1901-01-01 through 2099 for every N listed (all 199 Easter Sundays per N, against Cal!Easter, the anonymous Gregorian computus); (b) BYEASTER lists with INTERVAL/COUNT/SHIFT; (c) rules whose unshifted result is defined by C01 (YEARLY/MONTHLY, BYMONTHDAY/BYDAY ordinals/BYMONTH/BYYEARDAY/BYSETPOS shapes) with SHIFT=N for the N listed, SHIFT=NB and NB+/NB- for the business day counts listed, 0B/-0B/0B+/0B-, and combined d,bB forms; (d) INTERVAL>1 and WEEKLY/DAILY rules with SHIFT',
-           'easter_offsets': len(offs), 'easter_years_each': 199, 'day_shift_values': len(ns), 'mismatching_streams': v['nbad'], 'skipped_undefined_or_undecided': v['nskip'], 'exhaustive': th,
+           'easter_offsets': len(offs), 'easter_years_each': 199, 'day_shift_values': len(ns), 'mismatching_streams': v['nbad'] + v2['nbad'], 'scaled_shift_cases': len(sc_recs), 'scaled_shift_undecided': v2['nskip'], 'skipped_undefined_or_undecided': v['nskip'], 'exhaustive': th,
            'exhaustive_over': 'BYEASTER offsets -366..366 x years 1901-2099 and day shifts -366..366 (thorough tier); business day counts -70..70' if th else 'years 1901-2099 for each Easter offset tried'}
     return vlib.finish(PID, tier, seed, 'model_checking', cov, t0, unlisted, listed,
                        ['TLC/SANY, Json/IOUtils, SequencesExt', 'Cal.tla Easter (Meeus/Jones/Butcher) and weekday', 'RRule.tla ShiftDay is the reading of README/shift.h/test rrul_50 used: plain NB counts the move off a weekend as the first business day, NB+/NB- does not; selected dates of periods before DTSTART count when their moved date is on or after DTSTART'])
